@@ -119,7 +119,7 @@ def run_order_gfa(
         )
 
         # skip a chromosome if something went wrong
-        if scaffold_nodes:
+        if node_order is not None:
             # a skipped chromosome must not disturb the running BO counter
             bo = next_bo
             f_gfa = (
@@ -264,6 +264,13 @@ def decompose_and_order(graph, component, component_name, bo_start=0):
     degree_one = [x.id for x in scaffold_graph.nodes.values() if len(x.neighbors()) == 1]
     degree_two = [x.id for x in scaffold_graph.nodes.values() if len(x.neighbors()) == 2]
 
+    if len(scaffold_graph) == 1 and len(bubbles) == 1:
+        # the whole chromosome is one bubble: a chain with a single element and no scaffold node
+        node_order = dict()
+        for i, n in enumerate(sorted(bubbles[0])):
+            node_order[n] = (bo_start, i + 1)
+        return artic_points, inside_nodes, node_order, bo_start + 1, 1
+
     try:
         assert len(degree_one) == 2
     except AssertionError:
@@ -291,8 +298,29 @@ def decompose_and_order(graph, component, component_name, bo_start=0):
     # I save tags as key:(type, value), so "SO":(i, '123')
     coordinates = list(int(new_graph[n].tags["SO"][1]) for n in traversal_scaffold_only)
 
+    def reference_coordinate(element):
+        # smallest reference offset among the nodes collapsed into this element of the line graph
+        if scaffold_node_types[element] == "s":
+            members = [element]
+        else:
+            members = bubbles[int(element)]
+        reference_name = new_graph[traversal_scaffold_only[0]].tags["SN"][1]
+        offsets = [
+            int(new_graph[n].tags["SO"][1])
+            for n in members
+            if "SN" in new_graph[n].tags and new_graph[n].tags["SN"][1] == reference_name
+        ]
+        return min(offsets) if offsets else None
+
     # make sure that the traversal is in ascending order
-    if coordinates[0] > coordinates[-1]:
+    if len(coordinates) >= 2:
+        backwards = coordinates[0] > coordinates[-1]
+    else:
+        # a single scaffold node cannot orient the chain: compare the reference nodes inside the two end bubbles
+        first = reference_coordinate(traversal[0])
+        last = reference_coordinate(traversal[-1])
+        backwards = first is not None and last is not None and first > last
+    if backwards:
         traversal.reverse()
         traversal_scaffold_only.reverse()
         coordinates.reverse()
